@@ -35,7 +35,9 @@ vars == <<phase, ps, q, st, acc, cn, hits, cov, hn, hp, hpt, hoff, hres>>
 \* shapes around the int32 limit (N - 1 <= 2^31 - 1 ?): no coordinates are enumerated for them
 BigShapeTable == << <<50000, 50000>>, <<65536, 32768>>, <<65536, 32769>>, <<2147483647>>,
                     <<46341, 46341>>, <<46340, 46340>>, <<3, 715827883>>, <<2, 2, 536870912>>,
-                    <<2, 2, 536870913>>, <<1, 1, 1>>, <<1290, 1290, 1291>> >>
+                    <<2, 2, 536870913>>, <<1, 1, 1>>, <<1290, 1290, 1291>>,
+                    \* maps with more than 2^24 pixels (flat indices that a float32 cannot represent) but int32 indices
+                    <<4100, 4100>>, <<300, 300, 300>>, <<33554435>> >>
 BigShapes == {BigShapeTable[i] : i \in 1..NBig}
 
 NoPt == EqPt(QI(0), QI(0))
